@@ -98,6 +98,17 @@ func (g *Graph) continueWalking(found chan x509.CertificateChain, start *GraphEd
 		return
 	}
 
+	// A root certificate issued to the current node ends the chain. Its own
+	// issuer does not matter: it may be unknown to the graph, or already be in
+	// the chain (a cross-certificate used as a trust anchor).
+	for _, edge := range current.rootEdges.edges {
+		if canAddToChain(edge.Certificate, x509.CertificateTypeRoot, soFar) != nil {
+			continue
+		}
+		nextSoFar := soFar.AppendToFreshChain(edge.Certificate)
+		g.continueWalking(found, start, edge.issuer, nextSoFar, edge)
+	}
+
 	// Try to find the next node. Get edges that all go to the same node.
 	for skfp, edgeSet := range current.parentsBySubjectAndKey {
 		targetNode := g.nodesBySubjectAndKey[skfp]
@@ -114,11 +125,11 @@ func (g *Graph) continueWalking(found chan x509.CertificateChain, start *GraphEd
 		// was nil, we also aren't doing a duplicate visit, because if we were, the
 		// edge would not be dangling.
 		for _, edge := range edgeSet.edges {
-			certType := x509.CertificateTypeIntermediate
 			if edge.root {
-				certType = x509.CertificateTypeRoot
+				// Handled above.
+				continue
 			}
-			if canAddToChain(edge.Certificate, certType, soFar) != nil {
+			if canAddToChain(edge.Certificate, x509.CertificateTypeIntermediate, soFar) != nil {
 				continue
 			}
 			nextSoFar := soFar.AppendToFreshChain(edge.Certificate)
